@@ -891,7 +891,7 @@ func (cx *evalCtx) call(x *ast.CallExpr) (TV, error) {
 					}
 				case *types.Slice:
 					if s.keyMode {
-						return TV{app("strlen", a.S), SInt, it}, nil
+						return TV{ite(eq(a.S, "0"), "0", app("klen", a.S)), SInt, it}, nil
 					}
 				}
 			}
